@@ -1,6 +1,8 @@
 package props
 
 import (
+	"fmt"
+	"golang.org/x/tools/go/ssa"
 	"lcv/core"
 	"lcv/eng"
 )
@@ -45,6 +47,73 @@ func runC09(c *Ctx) {
 		}
 	}
 	c.R.RequireMin("R09.1", "functions explored from Match+MatchFrom", total, 40)
+	// R09.2: a lock that the library holds while it calls a function value of the caller (the Tracer) is released by a deferred
+	// call: with an explicit Unlock behind the call, a Tracer that panics in one Match - recovered by its caller - leaves the
+	// mutex locked, and every other traced call blocks for ever.
+	{
+		nA, bad := 0, ""
+		for _, f := range v2Funcs(p) {
+			deferred := map[string]bool{}
+			for _, b := range f.Blocks {
+				for _, in := range b.Instrs {
+					if d, ok := in.(*ssa.Defer); ok {
+						if op, k := eng.MutexOp(f, &d.Call); op == "Unlock" || op == "RUnlock" {
+							deferred[op+" "+k] = true
+						}
+					}
+				}
+			}
+			for _, b := range f.Blocks {
+				for i, in := range b.Instrs {
+					call, ok := in.(*ssa.Call)
+					if !ok {
+						continue
+					}
+					op, k := eng.MutexOp(f, &call.Call)
+					if op != "Lock" && op != "RLock" {
+						continue
+					}
+					rel := "Unlock"
+					if op == "RLock" {
+						rel = "RUnlock"
+					}
+					nA++
+					if deferred[rel+" "+k] {
+						continue
+					}
+					seen := map[*ssa.BasicBlock]bool{}
+					var scan func(bb *ssa.BasicBlock, from int)
+					scan = func(bb *ssa.BasicBlock, from int) {
+						for _, x := range bb.Instrs[from:] {
+							c2, isCall := x.(*ssa.Call)
+							if !isCall {
+								continue
+							}
+							if o2, k2 := eng.MutexOp(f, &c2.Call); o2 == rel && k2 == k {
+								return
+							}
+							if c2.Call.StaticCallee() == nil && !c2.Call.IsInvoke() {
+								if _, isB := c2.Call.Value.(*ssa.Builtin); !isB {
+									if _, isMC := c2.Call.Value.(*ssa.MakeClosure); !isMC && bad == "" {
+										bad = core.ShortFn(f) + ": " + k + " taken at " + p.Pos(call.Pos()) + " is held, without a deferred release, at the call of a function value at " + p.Pos(c2.Pos())
+									}
+								}
+							}
+						}
+						for _, sc := range bb.Succs {
+							if !seen[sc] {
+								seen[sc] = true
+								scan(sc, 0)
+							}
+						}
+					}
+					scan(b, i+1)
+				}
+			}
+		}
+		c.R.Check(bad == "", "R09.2", "v2: a lock held across a call of a caller-supplied function is released by a deferred call", v2pkg, fmt.Sprintf("%d lock acquisitions in the library", nA),
+			bad+": when that function panics and its caller recovers, the lock stays held and every other call that needs it blocks - the calls no longer return what they return when run alone")
+	}
 	stringMethodRoots(c, p, "R09.2", core.V2Mod, matchScope)
 	c.R.RequireMin("R09.2", "formatting methods", c.R.Counts["R09.2:formatting_methods"], 1)
 }
